@@ -458,3 +458,9 @@ O("C03.registry", "C03", "h_C03e.c", "h_C03_registry",
   "echse.c add_strm / rem_strm (the streams `echse unroll` muxes): after removing any one of up to 4 registered streams and adding another, every other stream and the new one are still registered, the removed one is not",
   ["add_strm", "rem_strm"], kind="bounded", bound="up to 4 registered streams", unwind=8, solver=["minisat", "kissat"],
   timeout={"quick": 600, "thorough": 1800}, replay=False, replay_note="echse.c needs the whole CLI to link")
+O("C07.tzob_zif", "C07", "h_C08_epoch.c", "h_C07_tzob_zif",
+  "__tzob_zif (most-frequently-used cache of open zone files): after any history of 3 lookups over 3 zones the file returned for a zone is that zone's own file",
+  ["__tzob_zif"], dfcc=True, replace=["echs_zone"], replace_status={"echs_zone": "contract: a zone object names its zone (interning not covered here)"},
+  kind="bounded", bound="3 zones, 4 consecutive lookups", unwind=20, solver=["minisat", "kissat"],
+  timeout={"quick": 600, "thorough": 1800}, replay=False, replay_note="zif_open/zif_close stubs",
+  assumptions=["zif_open/zif_close replaced by stubs that identify a zone file by its name"])
